@@ -83,8 +83,15 @@ func DrawCfg(r *sim.RNG) *Cfg {
 	}
 	c.Short = r.Chance(0.2)
 	c.Hole, c.Req = 2, 0
-	if r.Chance(0.15) {
+	switch r.Weighted([]int{70, 15, 7, 4, 4}) {
+	case 1:
 		c.Hole, c.Req = 4, 2
+	case 2:
+		c.Hole, c.Req = 2, 2 // every hole card required
+	case 3:
+		c.Hole, c.Req = 3, 2
+	case 4:
+		c.Hole, c.Req = 4, 0 // any five of nine
 	}
 	deckN := 52
 	if c.Short {
@@ -239,11 +246,21 @@ func drawInvalid(r *sim.RNG) *Cfg {
 	return c
 }
 
+// baseDeck is the harness's own deck constructor (it must not share
+// anything with the repository's constructors, whose results the engine
+// shuffles in place).
 func baseDeck(short bool) []string {
+	ranks := "23456789TJQKA"
 	if short {
-		return pokerface.NewShortDeckCards()
+		ranks = "6789TJQKA"
 	}
-	return pokerface.NewStandardDeckCards()
+	cards := make([]string, 0, 52)
+	for _, s := range "SHDC" {
+		for _, r := range ranks {
+			cards = append(cards, string(s)+string(r))
+		}
+	}
+	return cards
 }
 
 func shuffle(r *sim.RNG, cards []string) {
